@@ -32,7 +32,7 @@ Definition wf_stepb (s : sys) (o : op) : bool :=
       end
   | OJoin _ _ size => size <? 0
   | ONew _ _ _ _ t0 => 0 <=? t0
-  | OOpen _ _ _ _ _ _ => false
+  | OOpen _ _ _ _ _ _ _ => false
   | _ => true
   end.
 
@@ -60,11 +60,22 @@ Fixpoint pwfb_from (s : sys) (ops : list op) : bool :=
 Definition pwfb (ops : list op) : bool := pwfb_from empty_sys ops.
 
 
+(* the heads handed to NewLog are none, or exactly the entries of the selection that no entry of the selection names *)
+Definition heads_consistentb (tmp hs : list entry) : bool :=
+  match hs with
+  | [] => true
+  | _ => let fh := map e_hash (find_heads (from_entries tmp)) in
+         forallb (fun e => mem (e_hash e) fh) hs && forallb (fun h => mem h (map e_hash hs)) fh
+  end.
+
 (* histories in which logs are also re-opened over selections of other replicas' entries
    (Proofs/POpen.v: owf): hash-consistent appends, joins with any bound, any selection *)
 Definition owf_stepb (s : sys) (o : op) : bool :=
   match o with
-  | OOpen src _ id _ _ _ => match nth_error (s_logs s) src with Some l => N.eqb id (l_id l) | None => true end
+  | OOpen src keep hh id _ _ _ =>
+      match nth_error (s_logs s) src with
+      | Some l => N.eqb id (l_id l) && heads_consistentb (pick (l_entries l) keep) (pick (l_entries l) hh)
+      | None => true end
   | _ => pwf_stepb s o
   end.
 
@@ -79,7 +90,7 @@ Definition owfb (ops : list op) : bool := owfb_from empty_sys ops.
    than its entries carry (outside [owf]): content-consistent appends *)
 Definition hashes_consistent_stepb (s : sys) (o : op) : bool :=
   match o with
-  | OOpen _ _ _ _ _ _ => true
+  | OOpen _ _ _ _ _ _ _ => true
   | _ => pwf_stepb s o
   end.
 Fixpoint hashes_consistent_from (s : sys) (ops : list op) : bool :=
